@@ -770,7 +770,7 @@ SHAPE_ENTRY(sugar, 0)
 // by an observing contract stub (job option stubs: dispatchVoid -> stub_void; the entries are named harness_* so that THEIR call
 // reaches the real dispatchVoid).  Tree invariant of error-free parses (read off S / P / MOREP / VALUE / VARGS / MVARGS / PORTS /
 // OPORTS / ARGS / MARGS of parse.cpp), which each obligation may assume for the node it is given and for nothing below it:
-//   SPLIT(l, r): l, r statements or NULL            ASSIGN(NAME, value)         LOOP / WHILE(NAME, body)       STOP
+//   SPLIT(l, r): l present, r present or NULL        ASSIGN(NAME, value)         LOOP / WHILE(NAME, body)       STOP
 //   MARK(NAME, NULL)      GOTO(NAME, NULL)          IF(EQ(NAME, NUMBER), GOTO(NAME, NULL))
 //   PROGRAM(SPLIT(NAME, ports), body) with ports = NULL or SPLIT(SPLIT(NAME, more-or-NULL), NAME-or-NULL)
 //   value = NAME | NUMBER | CALL(NAME, args) with args = NULL or SPLIT(value, args)
@@ -809,10 +809,10 @@ extern "C" void harness_void_split() {
   GenState gs = void_state(1);
   Node l, r, s;
   mknode(l, Node::Type::STOP, std::string(), NULL, NULL); mknode(r, Node::Type::STOP, std::string(), NULL, NULL);
-  bool hl = nondet_bool(), hr = nondet_bool();
-  mknode(s, Node::Type::SPLIT, std::string(), hl ? &l : NULL, hr ? &r : NULL);
+  bool hr = nondet_bool();      // (the left child of a SPLIT is present on every error-free parse; `more` on the right may be absent)
+  mknode(s, Node::Type::SPLIT, std::string(), &l, hr ? &r : NULL);
   dispatchVoid(gs, &s);
-  ASSERT(V.calls == 2 && V.seen[0] == (hl ? &l : NULL) && V.seen[1] == (hr ? &r : NULL), "C02: a SPLIT node hands its left and then its right child - present or NULL - to the traversal and looks into neither");
+  ASSERT(V.calls == 2 && V.seen[0] == &l && V.seen[1] == (hr ? &r : NULL), "C02: a SPLIT node hands its left and then its right child - present or NULL - to the traversal exactly once each");
   ASSERT(gs.errors.size() == 0 && gs.out.code.size() == 3 && gs.symbols.size() == 1, "C02: a SPLIT node itself emits nothing and records no error");
   VEND(harness_void_split);
 }
@@ -836,7 +836,7 @@ extern "C" void harness_void_loop() {
   GenState gs = void_state(1);
   Node x, b, lp;
   mknode(x, Node::Type::NAME, std::string("x"), NULL, NULL); mknode(b, Node::Type::STOP, std::string(), NULL, NULL);
-  mknode(lp, Node::Type::LOOP, std::string(), &x, nondet_bool() ? &b : NULL);
+  mknode(lp, Node::Type::LOOP, std::string(), &x, &b);
   Node *body = lp.right;
   dispatchVoid(gs, &lp);
   ASSERT(V.calls == 1 && V.seen[0] == body && gs.errors.size() == 0, "C02: a LOOP node compiles its bound itself and hands its body to the traversal exactly once");
@@ -858,7 +858,7 @@ extern "C" void harness_void_while() {
   GenState gs = void_state(1);
   Node x, b, wh;
   mknode(x, Node::Type::NAME, std::string("x"), NULL, NULL); mknode(b, Node::Type::STOP, std::string(), NULL, NULL);
-  mknode(wh, Node::Type::WHILE, std::string(), &x, nondet_bool() ? &b : NULL);
+  mknode(wh, Node::Type::WHILE, std::string(), &x, &b);
   Node *body = wh.right;
   dispatchVoid(gs, &wh);
   ASSERT(V.calls == 1 && V.seen[0] == body && gs.errors.size() == 0, "C02: a WHILE node compiles its condition itself and hands its body to the traversal exactly once");
